@@ -468,6 +468,26 @@ def zero_copy_total(ctx, rep, rule):
         rep.violation(rule, "floor-zero-copy-decoders", "%d zero-copy decode impls found, floor is 5" % n)
 
 
+def capacity_exits(ctx, rep, rule):
+    """Loops of the codec that emit a value digit by digit / octet by octet (`v /= 10`, `left >>= 8`) and can also be left
+    because a counter or an iterator ran out: at that exit the value must be used up, or its remaining digits are dropped.
+    The loops are found by gsa/loops.py, run iteration by iteration by `num` (unroll_loop) and the obligation is recorded
+    as kind `capacity-exit`; a loop without such an exit has nothing to show."""
+    facts = ctx.facts
+    res = numrun.run(ctx)
+    n = 0
+    for path, o in res.obligations():
+        if o["kind"] != "capacity-exit":
+            continue
+        b = facts.bodies.get(path)
+        if b is None:
+            continue
+        n += 1
+        rep.check(rule, "%s|%s" % (path, o["key"]), o["ok"], "value used up at the capacity exit",
+                  "%s" % (o["detail"] or "the value is not shown to be used up when the loop runs out of room"), b.loc(o["line"]), obligation=True)
+    rep.info(rule, "capacity exits of value-consuming loops", str(n))
+
+
 def hdr_contract(ctx, rep, rule):
     facts = ctx.facts
     scope = {"ber::header::BerHeader::from_ber", "ber::BerDecoder::from_ber", "<ber::option::SnmpOption<'a> as ber::BerDecoder<'a>>::from_ber",
